@@ -21,6 +21,7 @@ from __future__ import annotations
 
 import ast
 import re
+import typing as t
 
 from ..loader import AnalysisError, BuiltinClass, ClassInfo, FuncInfo, Repo, dotted, norm
 from ..report import Ctx
@@ -316,3 +317,541 @@ def combined_read_through_rule(ctx: Ctx, rid: str) -> tuple[int, int]:
                     qual = lfi.qualname if lfi else cls.name
                     ctx.ob(rid, f"{qual}: the comprehension over `{src}` visits every wrapped dict in list order", False, f"iterable `{src}` is a selection / reordering of the list", lfi or cls.fq, g.iter, f"{qual} scan iterable `{src}`")
     return nread, nloops
+
+
+# =====================================================================================================================
+# R8.8 - in-place removal loops visit every element
+#
+# Deleting from a list while walking it moves the element behind the hole into the hole.  A walk that then advances
+# (a ``for`` loop's iterator, ``enumerate`` / ``range`` indices, ``idx += 1``) never looks at that element: of two
+# adjacent matches the second one survives.  Necessary condition on the CFG of every loop of the container modules:
+#
+#   for-loop over list L (lazily: L, iter(L), enumerate(L), zip(L, ..), range(len(L))) whose body removes from L
+#   (del L[i] / L.pop(i) / L.remove(x), one level of self-helper followed): no path leads from the removal back to the
+#   loop head - unless the walk is descending (reversed(..), range(.., -1, -1)), or it runs over a snapshot
+#   (list(L), L[:], L.copy(), sorted(L) ...) and the removal is not addressed by the loop's own index;
+#   while-loop that deletes at an index variable of a list it reads at that variable / whose length it tests: on every
+#   path from the deletion back to the loop test the net change of the index variable is <= 0.
+
+CONTAINER_PKG = "werkzeug.datastructures"
+SNAPSHOT_FUNCS = {"list", "tuple", "sorted"}
+LAZY_FUNCS = {"iter"}
+
+
+def _own_nodes(stmts: list[ast.stmt]) -> list[ast.AST]:
+    """all AST nodes of the statements, nested function / class bodies excluded."""
+    out: list[ast.AST] = []
+    stack: list[ast.AST] = list(stmts)
+    while stack:
+        n = stack.pop()
+        out.append(n)
+        for ch in ast.iter_child_nodes(n):
+            if isinstance(ch, (ast.FunctionDef, ast.AsyncFunctionDef, ast.ClassDef, ast.Lambda)):
+                continue
+            stack.append(ch)
+    return out
+
+
+def _local_aliases(fn: ast.AST) -> dict[str, ast.AST]:
+    """locals bound exactly once, by a plain ``name = <expr>`` (copy propagation for ``lst = self._list``)."""
+    stores: dict[str, int] = {}
+    simple: dict[str, ast.AST] = {}
+    for n in _own_nodes(list(fn.body)):  # type: ignore[attr-defined]
+        if isinstance(n, ast.Name) and isinstance(n.ctx, (ast.Store, ast.Del)):
+            stores[n.id] = stores.get(n.id, 0) + 1
+        if isinstance(n, ast.Assign) and len(n.targets) == 1 and isinstance(n.targets[0], ast.Name):
+            simple[n.targets[0].id] = n.value
+        elif isinstance(n, ast.AnnAssign) and isinstance(n.target, ast.Name) and n.value is not None:
+            simple[n.target.id] = n.value
+    a = fn.args  # type: ignore[attr-defined]
+    params = {x.arg for x in a.posonlyargs + a.args + a.kwonlyargs} | ({a.vararg.arg} if a.vararg else set()) | ({a.kwarg.arg} if a.kwarg else set())
+    return {k: v for k, v in simple.items() if stores.get(k) == 1 and k not in params}
+
+
+def _resolve(e: ast.AST, aliases: dict[str, ast.AST], depth: int = 0) -> ast.AST:
+    while isinstance(e, ast.Name) and e.id in aliases and depth < 6:
+        e = aliases[e.id]
+        depth += 1
+    return e
+
+
+def _canon_expr(e: ast.AST, aliases: dict[str, ast.AST]) -> str:
+    repl = {}
+    for x in ast.walk(e):
+        if isinstance(x, ast.Name) and x.id in aliases:
+            r = _resolve(x, aliases)
+            if r is not x and isinstance(r, (ast.Name, ast.Attribute)):
+                repl[id(x)] = norm(r)
+    return H.text(H.clone(e, repl)) if repl else norm(e)
+
+
+class _Walk:
+    """how a ``for`` loop traverses: the list it runs over (canonical text; None: not a plain sequence walk), whether it
+    runs over a copy, whether it runs backwards, and the name holding the position (enumerate / range)."""
+
+    def __init__(self) -> None:
+        self.base: str | None = None
+        self.snapshot = False
+        self.descending = False
+        self.index: str | None = None
+
+
+def _negative(e: ast.AST) -> bool:
+    return isinstance(e, ast.UnaryOp) and isinstance(e.op, ast.USub) and isinstance(e.operand, ast.Constant) and isinstance(e.operand.value, int) and e.operand.value > 0
+
+
+def _walk_of(loop: ast.For, aliases: dict[str, ast.AST]) -> _Walk:
+    w = _Walk()
+    e: ast.AST = loop.iter
+    target: ast.AST | None = loop.target
+    for _ in range(12):
+        e = _resolve(e, aliases)
+        if isinstance(e, ast.Subscript) and isinstance(e.slice, ast.Slice):
+            s = e.slice
+            if s.lower is None and s.upper is None and (s.step is None or _negative(s.step)):
+                w.snapshot = True
+                if s.step is not None:
+                    w.descending = not w.descending
+                e = e.value
+                continue
+            return w  # a part of the list: not judged
+        if isinstance(e, ast.Call):
+            d = dotted(e.func) or ""
+            if isinstance(e.func, ast.Attribute) and e.func.attr == "copy" and not e.args:
+                w.snapshot = True
+                e = e.func.value
+                continue
+            if d == "enumerate" and e.args:
+                if isinstance(target, (ast.Tuple, ast.List)) and len(target.elts) == 2:
+                    if isinstance(target.elts[0], ast.Name) and w.index is None:
+                        w.index = target.elts[0].id
+                    target = target.elts[1]
+                else:
+                    target = None
+                e = e.args[0]
+                continue
+            if d == "reversed" and len(e.args) == 1:
+                w.descending = not w.descending
+                e = e.args[0]
+                continue
+            if d in SNAPSHOT_FUNCS and e.args:
+                w.snapshot = True
+                e = e.args[0]
+                continue
+            if d in LAZY_FUNCS and len(e.args) == 1:
+                e = e.args[0]
+                continue
+            if d == "zip" and e.args:
+                if isinstance(target, (ast.Tuple, ast.List)) and len(target.elts) == len(e.args):
+                    target = target.elts[0]
+                else:
+                    target = None
+                e = e.args[0]
+                continue
+            if d == "range" and 1 <= len(e.args) <= 3:
+                lens = [x for a_ in e.args for x in ast.walk(a_) if isinstance(x, ast.Call) and dotted(x.func) == "len" and len(x.args) == 1]
+                if len(lens) != 1:
+                    return w
+                if len(e.args) == 3:
+                    if _negative(e.args[2]):
+                        w.descending = not w.descending
+                    elif not (isinstance(e.args[2], ast.Constant) and isinstance(e.args[2].value, int) and e.args[2].value > 0):
+                        return w
+                if isinstance(target, ast.Name) and w.index is None:
+                    w.index = target.id
+                w.base = _canon_expr(lens[0].args[0], aliases)
+                return w
+            return w  # some other call: not a walk over a list we can name
+        if isinstance(e, (ast.Name, ast.Attribute)):
+            w.base = _canon_expr(e, aliases)
+        return w
+    return w
+
+
+class _Site(t.NamedTuple):
+    node: ast.AST  # the statement / call in the loop body (location, CFG node)
+    cont: str  # canonical text of the container an element leaves
+    how: str  # 'index' | 'value'
+    arg: ast.AST | None  # index / value expression (in the loop's function)
+    text: str
+
+
+def _direct_sites(nodes: list[ast.AST], aliases: dict[str, ast.AST]) -> list[_Site]:
+    out = []
+    for n in nodes:
+        if isinstance(n, ast.Delete):
+            for tg in n.targets:
+                if isinstance(tg, ast.Subscript):
+                    idx: ast.AST | None = tg.slice
+                    if isinstance(idx, ast.Slice):
+                        idx = idx.lower if idx.lower is not None and idx.step is None else None
+                        if idx is None:
+                            continue  # del L[:] / del L[a:b:c]: not the removal of one element at a position
+                    out.append(_Site(n, _canon_expr(tg.value, aliases), "index", idx, norm(n)))
+        elif isinstance(n, ast.Call) and isinstance(n.func, ast.Attribute) and not n.keywords and len(n.args) == 1 and not isinstance(n.args[0], ast.Starred):
+            if n.func.attr == "pop":
+                out.append(_Site(n, _canon_expr(n.func.value, aliases), "index", n.args[0], norm(n)))
+            elif n.func.attr == "remove":
+                out.append(_Site(n, _canon_expr(n.func.value, aliases), "value", n.args[0], norm(n)))
+    return out
+
+
+def _helper_sites(repo: Repo, fi: FuncInfo, nodes: list[ast.AST], aliases: dict[str, ast.AST]) -> list[_Site]:
+    """one level of helper following: ``self.h(a, b)`` in the loop body, h a method of the class (MRO) that removes
+    from ``self.<attr>`` at / by one of its parameters."""
+    out: list[_Site] = []
+    if fi.cls is None or not fi.params:
+        return out
+    me = fi.params[0]
+    for n in nodes:
+        if not (isinstance(n, ast.Call) and isinstance(n.func, ast.Attribute) and isinstance(n.func.value, ast.Name) and n.func.value.id == me):
+            continue
+        _, h = repo.lookup(fi.cls, n.func.attr)
+        if not isinstance(h, FuncInfo) or h is fi or not h.params or any(isinstance(x, ast.Starred) for x in n.args):
+            continue
+        hself = h.params[0]
+        bind: dict[str, ast.AST] = {}
+        hp = [x.arg for x in h.node.args.posonlyargs + h.node.args.args][1:]  # type: ignore[attr-defined]
+        for p_, a_ in zip(hp, n.args):
+            bind[p_] = a_
+        for kw in n.keywords:
+            if kw.arg:
+                bind[kw.arg] = kw.value
+        hal = _local_aliases(h.node)
+        for s in _direct_sites(_own_nodes(list(h.node.body)), hal):  # type: ignore[attr-defined]
+            m = re.fullmatch(re.escape(hself) + r"\.(\w+)", s.cont)
+            if not m or s.arg is None:
+                continue
+            names = [x for x in ast.walk(s.arg) if isinstance(x, ast.Name)]
+            if not names or any(x.id not in bind for x in names):
+                continue
+            arg = H.P(H.text(H.clone(s.arg, {id(x): f"({norm(bind[x.id])})" for x in names})))
+            out.append(_Site(n, f"{me}.{m.group(1)}", s.how, arg, f"{norm(n)} -> {h.qualname}: {s.text}"))
+    return out
+
+
+def _delta_of(st: ast.AST | None, var: str) -> int | str | None:
+    """effect of a simple statement on the index variable: an int (``v += 2`` / ``v = v - 1``), 'reset' (any other
+    binding), None (does not bind it)."""
+    if isinstance(st, ast.AugAssign) and isinstance(st.target, ast.Name) and st.target.id == var:
+        if isinstance(st.op, (ast.Add, ast.Sub)) and isinstance(st.value, ast.Constant) and isinstance(st.value.value, int):
+            return st.value.value if isinstance(st.op, ast.Add) else -st.value.value
+        if isinstance(st.op, ast.Add):
+            return 1  # advancing by a computed amount: treated as moving forward
+        return "reset"
+    if isinstance(st, (ast.Assign, ast.AnnAssign)):
+        tgs = st.targets if isinstance(st, ast.Assign) else [st.target]
+        if any(isinstance(x, ast.Name) and x.id == var for tg in tgs for x in ast.walk(tg)):
+            v = st.value
+            if isinstance(v, ast.BinOp) and isinstance(v.op, (ast.Add, ast.Sub)) and isinstance(v.left, ast.Name) and v.left.id == var and isinstance(v.right, ast.Constant) and isinstance(v.right.value, int) and all(isinstance(tg, ast.Name) for tg in tgs):
+                return v.right.value if isinstance(v.op, ast.Add) else -v.right.value
+            return "reset"
+    if isinstance(st, (ast.For, ast.AsyncFor)) and any(isinstance(x, ast.Name) and x.id == var for x in ast.walk(st.target)):
+        return "reset"
+    if isinstance(st, ast.AST) and not isinstance(st, (ast.For, ast.AsyncFor, ast.While)) and any(isinstance(x, ast.NamedExpr) and x.target.id == var for x in ast.walk(st)):
+        return "reset"
+    return None
+
+
+def _paths_back(cfg, start, head, inloop: set[int], var: str | None, limit: int = 4000) -> list[tuple[int, bool, list[int]]]:
+    """every simple path start -> ... -> loop head that stays inside the loop: (net change of ``var``, var rebound on
+    the way, line numbers)."""
+    out: list[tuple[int, bool, list[int]]] = []
+    stack: list[tuple[t.Any, int, bool, frozenset[int], tuple[int, ...]]] = [(start, 0, False, frozenset([start.id]), (start.lineno,))]
+    steps = 0
+    while stack:
+        node, delta, reset, seen, lines = stack.pop()
+        steps += 1
+        if steps > limit:
+            raise AnalysisError(f"removal loop at line {head.lineno}: more than {limit} paths back to the loop head")
+        for succ, _lab in node.succs:
+            if succ is head:
+                out.append((delta, reset, list(lines)))
+                continue
+            if succ.id not in inloop or succ.id in seen:
+                continue
+            d2, r2 = delta, reset
+            if var is not None and succ.kind in ("stmt", "loop"):
+                eff = _delta_of(succ.ast, var)
+                if eff == "reset":
+                    r2 = True
+                elif isinstance(eff, int):
+                    d2 += eff
+            stack.append((succ, d2, r2, seen | {succ.id}, lines + (succ.lineno,)))
+    return out
+
+
+def removal_loop_rule(ctx: Ctx, rid: str) -> tuple[int, int]:
+    """R8.8; returns (#element-removal sites seen in the container modules, #(loop, removal) pairs judged)."""
+    from ..cfg import cfg_of
+
+    repo = ctx.repo
+    nsites = npairs = 0
+    funcs = [f for f in repo.all_functions() if f.module.name.startswith(CONTAINER_PKG)]
+    for fi in sorted(funcs, key=lambda f: f.fq):
+        body = list(fi.node.body)  # type: ignore[attr-defined]
+        own = _own_nodes(body)
+        aliases = _local_aliases(fi.node)
+        nsites += len(_direct_sites(own, aliases))
+        loops = [n for n in own if isinstance(n, (ast.For, ast.AsyncFor, ast.While))]
+        if not loops:
+            continue
+        cfg = cfg_of(fi)
+        for loop in sorted(loops, key=lambda n: (n.lineno, n.col_offset)):
+            inner = _own_nodes(list(loop.body))
+            sites = _direct_sites(inner, aliases) + _helper_sites(repo, fi, inner, aliases)
+            if not sites:
+                continue
+            heads = cfg.by_ast.get(id(loop)) or []
+            if not heads:
+                raise AnalysisError(f"{fi.fq}: loop at line {loop.lineno} has no CFG node")
+            head = heads[0]
+            test_nodes = _own_nodes([loop.test]) if isinstance(loop, ast.While) else []
+            ids = {id(x) for x in inner} | {id(x) for x in test_nodes}
+            inloop = {n.id for n in cfg.nodes if n.ast is not None and id(n.ast) in ids}
+            header = f"while {norm(loop.test)}" if isinstance(loop, ast.While) else f"for {norm(loop.target)} in {norm(loop.iter)}"
+            walk = _walk_of(loop, aliases) if not isinstance(loop, ast.While) else None
+            for s in sites:
+                start = cfg.node_of(s.node)
+                if start is None or start.id not in inloop:
+                    continue
+                ok, fact = True, ""
+                if walk is not None:
+                    if walk.base is None or s.cont != walk.base:
+                        continue  # the loop does not run over the container the element leaves
+                    back = _paths_back(cfg, start, head, inloop, None)
+                    uses_index = walk.index is not None and s.how == "index" and s.arg is not None and any(isinstance(x, ast.Name) and x.id == walk.index for x in ast.walk(s.arg))
+                    if not back:
+                        fact = "every path leaves the loop after the removal (break / return / raise): the walk does not continue over the changed list"
+                    elif walk.descending:
+                        fact = "the walk runs backwards: the elements that move are the ones already visited"
+                    elif uses_index:
+                        ok, fact = False, f"the loop goes on (lines {', '.join(map(str, back[0][2]))}) after deleting at its own position `{walk.index}`: the element that moves into the hole is never examined (of two adjacent matches the second survives" + ("; the positions of the copy no longer fit the list)" if walk.snapshot else ")")
+                    elif not walk.snapshot:
+                        ok, fact = False, f"the loop goes on (lines {', '.join(map(str, back[0][2]))}) over `{walk.base}` itself after an element has been removed from it: the iterator skips the element that moves into the hole"
+                    else:
+                        fact = "the loop runs over a copy and the removal is not addressed by the loop's position"
+                else:
+                    if s.how != "index" or s.arg is None:
+                        continue
+                    ivars = sorted({x.id for x in ast.walk(s.arg) if isinstance(x, ast.Name)})
+                    reads = {(_canon_expr(x.value, aliases), y.id) for x in inner + test_nodes if isinstance(x, ast.Subscript) and isinstance(x.ctx, ast.Load) for y in ast.walk(x.slice) if isinstance(y, ast.Name)}
+                    lens = {_canon_expr(x.args[0], aliases) for x in test_nodes if isinstance(x, ast.Call) and dotted(x.func) == "len" and len(x.args) == 1}
+                    ivars = [v for v in ivars if any(_delta_of(x, v) is not None for x in inner) and ((s.cont, v) in reads or s.cont in lens)]
+                    if not ivars:
+                        continue  # not an index walk over this list
+                    bad = None
+                    n_back = 0
+                    for v in ivars:
+                        for delta, reset, lines in _paths_back(cfg, start, head, inloop, v):
+                            n_back += 1
+                            if delta > 0 and not reset and bad is None:
+                                bad = (v, delta, lines)
+                    if bad:
+                        ok, fact = False, f"after deleting at position `{bad[0]}` a path back to the loop test (lines {', '.join(map(str, bad[2]))}) advances `{bad[0]}` by {bad[1]}: the element that moved into the hole is never examined (of two adjacent matches the second survives)"
+                    else:
+                        fact = f"index walk over `{s.cont}` by {ivars}: none of the {n_back} path(s) from the deletion back to the loop test advances the index"
+                npairs += 1
+                ctx.ob(rid, f"{fi.qualname}: `{s.text}` inside `{header}` does not make the walk skip an element", ok, fact, fi, s.node, f"{fi.qualname} removal `{s.text}` in `{header}`")
+    return nsites, npairs
+
+
+# =====================================================================================================================
+# R8.9 - get() never raises for a missing value
+
+LOOKUP_ERRORS = {"KeyError", "BadRequestKeyError", "LookupError", "IndexError"}
+
+
+def get_never_raises_rule(ctx: Ctx, rid: str) -> tuple[int, int]:
+    """R8.9: ``get`` of every container class (resolved in its MRO, item access / membership / helpers inlined as the
+    class's MRO resolves them - a subclass's ``__getitem__`` that also raises for a key that is present without values
+    is the one executed): no path lets an explicitly raised lookup error escape.  Returns (#classes judged, #classes
+    whose item access is a package method, i.e. can raise explicitly)."""
+    repo = ctx.repo
+    n = n_pkg = 0
+    for c in sorted(repo.all_classes(), key=lambda c: c.fq):
+        if not c.module.name.startswith(CONTAINER_PKG):
+            continue
+        owner, g = repo.lookup(c, "get")
+        if not isinstance(g, FuncInfo) or not g.module.name.startswith(CONTAINER_PKG):
+            continue
+        _, gi = repo.lookup(c, "__getitem__")
+        ex = H.Exec(repo, c, on_event=lambda a, ev, st: a)  # (events only feed the line trail of the report)
+        outs = ex.run_function(g, auto0=None)
+        raised: dict[str, H.Out] = {}
+        for o in outs:
+            if o.kind == "raise" and not o.value.startswith("~"):
+                raised.setdefault(o.value, o)
+        if "?" in raised and not (set(raised) & LOOKUP_ERRORS):
+            raise AnalysisError(f"{c.name}.get ({g.fq}): a path raises an exception whose type the executor cannot name (lines {', '.join(map(str, raised['?'].st.trail))})")
+        n += 1
+        n_pkg += isinstance(gi, FuncInfo)
+        bad = sorted(set(raised) & LOOKUP_ERRORS)
+        if bad:
+            o = raised[bad[0]]
+            known = ", ".join(f"{k}={v}" for k, v in sorted(o.st.facts.items()) if "__p1__" in k)[:300]
+            fact = f"get resolves to {g.qualname}, item access to {gi.qualname if isinstance(gi, FuncInfo) else 'the builtin'}: a path lets {bad[0]} escape (lines {', '.join(map(str, o.st.trail))}; on that path: {known or 'no condition on the key'}) instead of returning the default"
+        else:
+            others = sorted(set(raised) - LOOKUP_ERRORS)
+            fact = f"get resolves to {g.qualname}, item access to {gi.qualname if isinstance(gi, FuncInfo) else 'the builtin'}: {len(outs)} path outcome(s), no explicitly raised lookup error escapes" + (f" (other explicit raises: {others})" if others else "")
+        ctx.ob(rid, f"{c.name}.get returns the default instead of raising for a key without value", not bad, fact, g, g.node, f"{c.name}.get never raises")
+    return n, n_pkg
+
+
+# =====================================================================================================================
+# R8.10 - the pickle reduction of a multi dict carries every value
+
+MULTIDICT = "datastructures.structures.MultiDict"
+FLATTENING_CALLS = {"dict", "list", "tuple", "set", "frozenset", "sorted", "iter", "enumerate", "zip", "map", "filter", "reversed", "next"}
+RAW_DICT_READS = {"dict.items", "dict.values", "dict.copy"}  # the underlying dict of lists, not the first-value view
+LIST_READERS = {"lists", "listvalues", "getlist", "poplist"}
+OBJECT_READERS = {"copy", "deepcopy", "__copy__", "__deepcopy__"}
+KEY_READERS = {"keys", "__iter__", "__len__", "__contains__"}
+FLAT_READERS = {"values", "get", "__getitem__", "pop", "popitem", "setdefault"}
+
+
+def _const_arg(call: ast.Call, pos: int, name: str) -> t.Any:
+    for kw in call.keywords:
+        if kw.arg == name:
+            return H.const_of(H.text(kw.value))
+    if len(call.args) > pos and not isinstance(call.args[pos], ast.Starred):
+        return H.const_of(H.text(call.args[pos]))
+    return None  # not given
+
+
+def _state_reads(term: str, repo: Repo, cls: ClassInfo, md: ClassInfo, module) -> list[tuple[str, str]]:
+    """how a pickle state term reads the object: (kind, text) per occurrence of the object in the term.  kinds:
+    'lists' - per-key value lists / raw storage (complete whatever wraps it); 'pairs' - all (key, value) pairs
+    (complete unless collapsed by ``dict(...)``); 'object' - the multi dict itself or a copy (complete unless handed to
+    a builtin that iterates it like a plain dict); 'flat' - the first-value view; 'keys' - keys only; 'unknown'."""
+    tree = H.P(term)
+    parent: dict[int, ast.AST] = {}
+    for n in ast.walk(tree):
+        for ch in ast.iter_child_nodes(n):
+            parent[id(ch)] = n
+    out: list[tuple[str, str]] = []
+
+    def collapsed_by_dict(n: ast.AST) -> bool:
+        cur = parent.get(id(n))
+        while cur is not None:
+            if isinstance(cur, ast.Call) and dotted(cur.func) == "dict":
+                return True
+            if isinstance(cur, ast.DictComp):
+                return True
+            cur = parent.get(id(cur))
+        return False
+
+    def as_object(n: ast.AST) -> str:
+        """the node denotes the multi dict (or a copy of it): what does its context do with it?"""
+        p = parent.get(id(n))
+        if isinstance(p, ast.Call) and n in p.args:
+            d = dotted(p.func) or ""
+            if d in RAW_DICT_READS:
+                return "lists"
+            if d in FLATTENING_CALLS:
+                return "flat"
+            if d.rsplit(".", 1)[-1] in ("copy", "deepcopy"):
+                return as_object(p)
+            tgt = repo.resolve(module, d) if re.match(r"^[A-Za-z_][\w.]*$", d) and module is not None else None
+            k = repo.try_cls(tgt) if tgt and tgt.startswith("werkzeug") else None
+            if k is not None and any(x is md for x in repo.mro(k)):
+                return as_object(p)  # the copying constructor keeps every list
+            return "unknown"
+        if isinstance(p, ast.comprehension) and p.iter is n:
+            return "keys"
+        if isinstance(p, (ast.Tuple, ast.List)) or p is None or isinstance(p, ast.Starred):
+            return "object"
+        return "unknown"
+
+    for x in ast.walk(tree):
+        if not (isinstance(x, ast.Name) and x.id == H.SELF):
+            continue
+        p = parent.get(id(x))
+        if isinstance(p, ast.Call) and dotted(p.func) == "type" and x in p.args:
+            continue
+        if isinstance(p, ast.Attribute) and p.value is x:
+            if p.attr == "__class__":
+                continue
+            pp = parent.get(id(p))
+            called = isinstance(pp, ast.Call) and pp.func is p
+            _, what = repo.lookup(cls, p.attr)
+            if not called:
+                out.append(("lists" if not isinstance(what, FuncInfo) and what != "builtin" else "unknown", H.text(p)))
+                continue
+            assert isinstance(pp, ast.Call)
+            txt = H.text(pp)
+            a = p.attr
+            if a == "items":
+                multi = _const_arg(pp, 0, "multi")
+                kind = "pairs" if multi is True else "flat" if multi in (None, False) else "unknown"
+                if kind == "pairs" and collapsed_by_dict(pp):
+                    kind, txt = "flat", f"dict(.. {txt} ..)"
+            elif a == "to_dict":
+                flat = _const_arg(pp, 0, "flat")
+                kind = "lists" if flat is False else "flat" if flat in (None, True) else "unknown"
+            elif a in LIST_READERS:
+                kind = "lists"
+            elif a in OBJECT_READERS:
+                kind = as_object(pp)
+                if kind == "flat":
+                    txt = H.text(parent[id(pp)])
+            elif a in KEY_READERS:
+                kind = "keys"
+            elif a in FLAT_READERS:
+                kind = "flat"
+            else:
+                kind = "unknown"
+            out.append((kind, txt))
+            continue
+        if isinstance(p, ast.Subscript) and p.value is x:
+            out.append(("flat", H.text(p)))  # item access: the first value of the key
+            continue
+        kind = as_object(x)
+        out.append((kind, H.text(p) if p is not None and kind in ("flat", "lists", "unknown") else H.SELF))
+    return out
+
+
+def pickle_state_rule(ctx: Ctx, rid: str) -> int:
+    """R8.10: for every class with the multi dict in its MRO, the reduction that pickle uses - ``__reduce_ex__`` /
+    ``__reduce__`` as the MRO resolves it, else the default reduction with ``__getstate__`` - builds its state from a
+    read of the object that carries every value of every key.  A state built only from the first-value view
+    (``dict(self)``, ``self.items()``, ``self.to_dict()``, ``list(self)`` ...) drops the additional values: the copy
+    that comes back is not equal to the original."""
+    repo = ctx.repo
+    md = repo.cls(MULTIDICT)
+    n = 0
+    for c in sorted(repo.all_classes(), key=lambda c: c.fq):
+        if not any(k is md for k in repo.mro(c)):
+            continue
+        n += 1
+        via, fi = None, None
+        for name in ("__reduce_ex__", "__reduce__"):
+            owner, what = repo.lookup(c, name)
+            if isinstance(what, FuncInfo):
+                via, fi = name, what
+                break
+        if fi is None:
+            _, gs = repo.lookup(c, "__getstate__")
+            _, ss = repo.lookup(c, "__setstate__")
+            if not isinstance(gs, FuncInfo) or not isinstance(ss, FuncInfo):
+                ctx.ob(rid, f"{c.name}: the pickle reduction carries every value of every key", False, "no __reduce_ex__ / __reduce__ and no __getstate__ + __setstate__ pair in the package: the default reduction of a dict subclass sends `self.items()` - the first value of each key only", c.fq, c.node, f"{c.name} pickle state")
+                continue
+            via, fi = "__getstate__", gs
+        ex = H.Exec(repo, c, inline_public=False)
+        vals = sorted({o.value for o in ex.run_function(fi, auto0=None) if o.kind == "ret"})
+        if not vals:
+            raise AnalysisError(f"{c.name}: {fi.qualname} has no returning path")
+        bad, facts = [], []
+        for v in vals:
+            reads = _state_reads(v, repo, c, md, fi.module)
+            complete = [t_ for k, t_ in reads if k in ("lists", "pairs", "object")]
+            unknown = [t_ for k, t_ in reads if k == "unknown"]
+            flat = [t_ for k, t_ in reads if k == "flat"]
+            if complete:
+                facts.append(f"`{v}` reads every value through `{complete[0]}`")
+            elif unknown:
+                raise AnalysisError(f"{c.name}: cannot decide whether the pickle state `{v}` ({fi.qualname}) carries every value: `{unknown[0]}` is not a read the rule knows")
+            else:
+                bad.append(f"`{v}` is built from {('`' + flat[0] + '`') if flat else 'nothing of the object'} - the first-value view of the multi dict (one value per key): the additional values of a key do not survive a pickle round trip")
+        ctx.ob(rid, f"{c.name}: the pickle reduction carries every value of every key", not bad, f"{via} resolves to {fi.qualname}: " + ("; ".join(bad) if bad else "; ".join(facts)), fi, fi.node, f"{c.name} pickle state")
+    return n
